@@ -297,9 +297,14 @@ C06Key(c, p, r) ==
   ELSE LET ing == IngressFromLink(c, p.via)
            pair == <<LinkT(c, ing), LinkT(c, r.eg)>>
            ps == pair[1] \o "-" \o pair[2]
+           \* a packet handed over inside the AS on which THIS router performs the segment change: the pair
+           \* is (interface through which the packet entered the AS, egress)
+           cp == <<LinkT(c, ClaimedIngress(p)), LinkT(c, r.eg)>>
        IN IF ing = 0 THEN
              (IF Scope(c, r.eg) # "ext"
               THEN "C06:from-inside-not-out-of-own-external:via=" \o ViaClass(c, p) \o ",egress-scope=" \o Scope(c, r.eg)
+              ELSE IF r.xover /\ cp \notin XoverAllowed
+              THEN "C06:segment-change-from-inside:" \o cp[1] \o "-" \o cp[2]
               ELSE "")
           ELSE IF Scope(c, r.eg) \notin {"ext", "sib"} THEN "C06:egress-not-an-interface:" \o Scope(c, r.eg)
           ELSE IF r.xover /\ pair \notin XoverAllowed THEN "C06:segment-change:" \o ps
